@@ -17,6 +17,7 @@ import (
 	"iter"
 	"runtime"
 	"sort"
+	"strconv"
 	"strings"
 	"sync"
 	"sync/atomic"
@@ -45,6 +46,31 @@ type Op struct {
 	Rd string `json:"rd,omitempty"`
 }
 
+func (o Op) String() string {
+	s := o.Kind
+	switch o.Kind {
+	case "evict":
+		return "evict " + o.Dir
+	case "GetRange":
+		s += fmt.Sprintf("(off %d, len %d, read buffer %d)", o.Off, o.Len, o.Buf)
+	case "Get":
+		if o.Partial {
+			s += "(one byte, then Close)"
+		} else {
+			s += fmt.Sprintf("(read buffer %d)", o.Buf)
+		}
+	case "Iter":
+		s += fmt.Sprintf("(%q, recursive %v)", o.Dir, o.Rec)
+	}
+	if o.Missing {
+		s += " of the missing object"
+	}
+	if o.Rd != "" {
+		s += " with underlying readers delivering " + strconv.Quote(o.Rd)
+	}
+	return s
+}
+
 type Case struct {
 	Size   int `json:"size"`    // size of the object d/o
 	SS     int `json:"ss"`      // subrange size
@@ -64,16 +90,13 @@ const (
 // ---- harness cache: its content is the explored state --------------------------------------------------------------
 
 type memCache struct {
-	mu sync.Mutex
-	m  map[string][]byte
+	mu    sync.Mutex
+	base  map[string]string // the state the operation started from (never modified)
+	added map[string][]byte // entries stored since, that differ from base
 }
 
 func newMemCache(st map[string]string) *memCache {
-	c := &memCache{m: map[string][]byte{}}
-	for k, v := range st {
-		c.m[k] = []byte(v)
-	}
-	return c
+	return &memCache{base: st, added: map[string][]byte{}}
 }
 func (c *memCache) Name() string { return "verif" }
 
@@ -81,18 +104,22 @@ func (c *memCache) Name() string { return "verif" }
 func (c *memCache) reset(st map[string]string) {
 	c.mu.Lock()
 	defer c.mu.Unlock()
-	c.m = make(map[string][]byte, len(st)+4)
-	for k, v := range st {
-		c.m[k] = []byte(v)
+	c.base = st
+	if len(c.added) > 0 {
+		c.added = map[string][]byte{}
 	}
 }
 func (c *memCache) Store(data map[string][]byte, _ time.Duration) {
 	c.mu.Lock()
 	defer c.mu.Unlock()
 	for k, v := range data {
+		if old, ok := c.base[k]; ok && old == string(v) {
+			delete(c.added, k)
+			continue
+		}
 		b := make([]byte, len(v))
 		copy(b, v)
-		c.m[k] = b
+		c.added[k] = b
 	}
 }
 func (c *memCache) Fetch(_ context.Context, keys []string) map[string][]byte {
@@ -100,19 +127,31 @@ func (c *memCache) Fetch(_ context.Context, keys []string) map[string][]byte {
 	defer c.mu.Unlock()
 	out := map[string][]byte{}
 	for _, k := range keys {
-		if v, ok := c.m[k]; ok {
+		if v, ok := c.added[k]; ok {
 			b := make([]byte, len(v))
 			copy(b, v)
 			out[k] = b
+		} else if v, ok := c.base[k]; ok {
+			out[k] = []byte(v)
 		}
 	}
 	return out
 }
+
+// changed reports whether the content differs from the state given to reset.
+func (c *memCache) changed() bool {
+	c.mu.Lock()
+	defer c.mu.Unlock()
+	return len(c.added) > 0
+}
 func (c *memCache) snapshot() map[string]string {
 	c.mu.Lock()
 	defer c.mu.Unlock()
-	out := make(map[string]string, len(c.m))
-	for k, v := range c.m {
+	out := make(map[string]string, len(c.base)+len(c.added))
+	for k, v := range c.base {
+		out[k] = v
+	}
+	for k, v := range c.added {
 		out[k] = string(v)
 	}
 	return out
@@ -164,15 +203,14 @@ var shapes = map[string]shape{
 	"1+eof":        {piece: 1, eofData: true},
 	"half":         {piece: 2},
 	"half+eof":     {piece: 2, eofData: true},
-	"stutter":      {piece: 0, stutter: true},
 	"stutter1+eof": {piece: 1, eofData: true, stutter: true},
 }
 
 func shapeNames(thorough bool) []string {
 	if thorough {
-		return []string{"all+eof", "1", "1+eof", "half", "half+eof", "stutter", "stutter1+eof"}
+		return []string{"all+eof", "1", "1+eof", "half", "half+eof", "stutter1+eof"}
 	}
-	return []string{"all+eof", "1", "1+eof", "half"}
+	return []string{"all+eof", "1", "1+eof"} // with "": {everything that fits, one byte} x {separate io.EOF, attached io.EOF}
 }
 
 type shapedReader struct {
@@ -446,8 +484,8 @@ func newRig(c Case, inmem *objstore.InMemBucket) (*rig, error) {
 	return g, err
 }
 
-// step runs op (with the read behaviour op.Rd) on a cache holding exactly st. opened = number of readers the caching bucket
-// obtained from the underlying bucket.
+// step runs op (with the read behaviour op.Rd) on a cache holding exactly st. next = the cache content afterwards, nil when it
+// is still st; opened = number of readers the caching bucket obtained from the underlying bucket.
 func (g *rig) step(st map[string]string, op Op) (next map[string]string, want, got string, opened int64) {
 	g.mc.reset(st)
 	g.under.rd = op.Rd
@@ -460,7 +498,10 @@ func (g *rig) step(st map[string]string, op Op) (next map[string]string, want, g
 		want = run(g.inmem, plain)
 		g.wantOf[plain] = want
 	}
-	return g.mc.snapshot(), want, got, g.under.opened.Load()
+	if g.mc.changed() {
+		next = g.mc.snapshot()
+	}
+	return next, want, got, g.under.opened.Load()
 }
 
 func TestCheck(t *testing.T) {
@@ -469,8 +510,8 @@ func TestCheck(t *testing.T) {
 	r.Rule("per configuration (object size, subrange size, MaxSubRequests, MaxCacheableSize): BFS to closure over cache contents; operations = GetRange(off 0..roundup(size,ss)+ss, " +
 		"len 1..size+2, read buffer 1|512) + pass-through GetRange forms + Get (full with buffer 1|512, partial) + Exists + Attributes on the existing and a missing object + " +
 		"Iter (root, root recursive; thorough also a directory); every transition in which the caching bucket opens a reader of the underlying bucket is executed once per read " +
-		"behaviour of those readers (bytes.Reader as is; all at once with io.EOF in the same Read; one byte per Read with a separate / with an attached io.EOF; half the buffer per Read; " +
-		"thorough also half+attached EOF and (0,nil) reads in between); environment = evict any one entry; non-trivial = distinct (configuration, state) with at least one but not all " +
+		"behaviour of those readers ({everything that fits per Read (bytes.Reader as is), one byte per Read} x {io.EOF from an extra Read, io.EOF together with the last bytes}; " +
+		"thorough also half of the buffer per Read with either EOF and (0,nil) reads in between); environment = evict any one entry; non-trivial = distinct (configuration, state) with at least one but not all " +
 		"sub-ranges of the object cached (partial hits); states/transitions/traces are counted by the search")
 	r.Assume("Objects never change; the underlying bucket is objstore.InMemBucket behind a wrapper that only changes HOW its readers deliver the same bytes (piece sizes, position of io.EOF, "+
 		"(0,nil) reads - all legal per the io.Reader contract); one cache instance serves all operation configs (as SetCacheImplementation does); TTLs are 24h and the "+
@@ -480,7 +521,7 @@ func TestCheck(t *testing.T) {
 			"up to the order in which its parallel sub-requests finish).")
 
 	vlib.ForEach(r, gen(r), func(c Case) {
-		check := func(st map[string]string, op Op, want, got string) {
+		check := func(st map[string]string, via func() string, op Op, want, got string) {
 			if want == got {
 				return
 			}
@@ -493,8 +534,8 @@ func TestCheck(t *testing.T) {
 			if rd == "" {
 				rd = "bytes.Reader"
 			}
-			r.Violation(classify(op, c, want, got), fmt.Sprintf("object size %d, subrange size %d, MaxSubRequests %d, MaxCacheableSize %d, cache content {%s}, underlying readers deliver %q: %+v answered %s, the underlying bucket answers %s",
-				c.Size, c.SS, c.MaxSub, c.MaxGet, stateKey(st), rd, op, got, want), vc)
+			r.Violation(classify(op, c, want, got), fmt.Sprintf("object size %d, subrange size %d, MaxSubRequests %d, MaxCacheableSize %d, cache content {%s}%s, underlying readers deliver %q: %v answered %s, the underlying bucket answers %s",
+				c.Size, c.SS, c.MaxSub, c.MaxGet, stateKey(st), via(), rd, op, got, want), vc)
 		}
 		inmem, err := newUnderlying(c)
 		if err != nil {
@@ -510,7 +551,7 @@ func TestCheck(t *testing.T) {
 			_, want, got, _ := g.step(c.State, *c.Op)
 			r.AddTransitions(1)
 			r.AddTraces(1)
-			check(c.State, *c.Op, want, got)
+			check(c.State, func() string { return "" }, *c.Op, want, got)
 			return
 		}
 		r.Sample(c)
@@ -521,20 +562,42 @@ func TestCheck(t *testing.T) {
 			key string
 			st  map[string]string
 		}
+		type parent struct { // how a state was first reached
+			from string // key of a predecessor state
+			by   Op     // the operation executed there (Kind "evict": the cache lost the entry Dir)
+		}
 		var mu sync.Mutex // seen, next
-		seen := map[string]struct{}{stateKey(nil): {}}
+		seen := map[string]parent{stateKey(nil): {}}
 		frontier := []node{{key: stateKey(nil), st: map[string]string{}}}
 		var next []node
 		var states, trans, traces, shaped, indep, dataEOF atomic.Int64
 		states.Store(1)
-		push := func(st map[string]string) {
+		push := func(st map[string]string, from string, by Op) {
+			if st == nil { // the operation left the cache as it was
+				return
+			}
 			k := stateKey(st)
 			mu.Lock()
 			if _, ok := seen[k]; !ok {
-				seen[k] = struct{}{}
+				seen[k] = parent{from, by}
 				next = append(next, node{k, st})
 			}
 			mu.Unlock()
+		}
+		history := func(k string) string { // the operations that led from the empty cache to state k
+			mu.Lock()
+			defer mu.Unlock()
+			var hist []string
+			for p := seen[k]; p.by.Kind != "" && len(hist) < 64; p = seen[p.from] {
+				hist = append(hist, p.by.String())
+			}
+			if len(hist) == 0 {
+				return ""
+			}
+			for i, j := 0, len(hist)-1; i < j; i, j = i+1, j-1 {
+				hist[i], hist[j] = hist[j], hist[i]
+			}
+			return " (reached from the empty cache by " + strings.Join(hist, "; ") + ")"
 		}
 		expand := func(g *rig, n node) {
 			cached := 0
@@ -546,12 +609,13 @@ func TestCheck(t *testing.T) {
 			if cached > 0 && cached < nsub {
 				r.Nontrivial(fmt.Sprint(c.Size, c.SS, c.MaxSub, c.MaxGet, n.key))
 			}
+			via := func() string { return history(n.key) }
 			for _, op := range all {
 				nx, want, got, opened := g.step(n.st, op)
 				trans.Add(1)
 				traces.Add(1)
-				check(n.st, op, want, got)
-				push(nx)
+				check(n.st, via, op, want, got)
+				push(nx, n.key, op)
 				if opened == 0 {
 					indep.Add(1)
 					continue
@@ -562,8 +626,8 @@ func TestCheck(t *testing.T) {
 					trans.Add(1)
 					traces.Add(1)
 					shaped.Add(1)
-					check(n.st, op, want, got)
-					push(nx)
+					check(n.st, via, op, want, got)
+					push(nx, n.key, op)
 				}
 			}
 			for k := range n.st { // the cache loses one entry
@@ -574,7 +638,7 @@ func TestCheck(t *testing.T) {
 					}
 				}
 				trans.Add(1)
-				push(nx)
+				push(nx, n.key, Op{Kind: "evict", Dir: k})
 			}
 		}
 		// level-synchronous BFS; the nodes of a level are expanded by all workers, each on its own instance of the system
